@@ -17,7 +17,7 @@ PROGRAMS = {'core': dict(crate='vaporetto', features=['train', 'kytea'], extra=[
 for _k, _v in C13_harness.PROGRAMS.items():
     PROGRAMS['C13:' + _k] = _v
 UNIT_CAP = 150
-BUDGET_S = {'quick': 280, 'thorough': 2400}
+BUDGET_S = {'quick': 600, 'thorough': 1200}      # wall-clock safety caps (exceeding one is reported as inconclusive); typical quick runs take 1-200 s
 DELEGATES = {
     'C01_harness': lambda j: j['n'] <= 3 and j['shape'] in ('c2-suffix', 'c4-fixed8', 'c9-var', 'c2-mb', 't2-cache', 'mix', 'd2-long', 't4-nocache'),
     'C02_harness': lambda j: (j['kind'] == 'escape' and j['n'] <= 2) or (j['kind'] == 'spans' and j['n'] == 4 and j['wp'] == '14'),
